@@ -19,6 +19,7 @@ package engine
 import (
 	"encoding/base64"
 	"path"
+	"sort"
 	"strings"
 
 	"github.com/gobwas/glob"
@@ -110,8 +111,10 @@ func (f files) AsConfig() string {
 	m := make(map[string]string)
 
 	// Explicitly convert to strings, and file names
-	for k, v := range f {
-		m[path.Base(k)] = string(v)
+	// Iterate in sorted path order so that, when base names collide, the winner
+	// does not depend on map iteration order.
+	for _, k := range f.sortedPaths() {
+		m[path.Base(k)] = string(f[k])
 	}
 
 	return toYAML(m)
@@ -139,11 +142,23 @@ func (f files) AsSecrets() string {
 
 	m := make(map[string]string)
 
-	for k, v := range f {
-		m[path.Base(k)] = base64.StdEncoding.EncodeToString(v)
+	// Iterate in sorted path order so that, when base names collide, the winner
+	// does not depend on map iteration order.
+	for _, k := range f.sortedPaths() {
+		m[path.Base(k)] = base64.StdEncoding.EncodeToString(f[k])
 	}
 
 	return toYAML(m)
+}
+
+// sortedPaths returns the file paths in lexical order.
+func (f files) sortedPaths() []string {
+	paths := make([]string, 0, len(f))
+	for k := range f {
+		paths = append(paths, k)
+	}
+	sort.Strings(paths)
+	return paths
 }
 
 // Lines returns each line of a named file (split by "\n") as a slice, so it can
